@@ -132,7 +132,7 @@ def move_staticmethod_static_scope(source: str, preserve: Collection[str]) -> st
             ):
                 class_attribute_accesses.add(node)
             else:
-                attributes_to_preserve.add(node.value.id)
+                attributes_to_preserve.add(node.attr)  # x.f() may be a call of any method named f
 
     # Every name that is bound or referred to anywhere is taken, not only those of functions
     static_names = (
@@ -171,7 +171,7 @@ def move_staticmethod_static_scope(source: str, preserve: Collection[str]) -> st
 
         for node in class_attribute_accesses:
             classdef_aliases = [classdef.name]
-            if classdef.lineno < node.lineno < classdef.end_lineno:
+            if classdef.lineno < node.lineno <= classdef.end_lineno:  # The last line is part of it
                 classdef_aliases.extend(("self", "cls"))
 
             template = ast.Attribute(
